@@ -10,7 +10,7 @@
                         identifiers, formulae and SMILES-like labels, e.g. CC(=O)O, C#C, Fe(OH)3 ([ex_label_domain]).
       [rxns_of H]       the stored reactions (rule, reactants, products) as a list; multiset equality is [≡ₚ]. *)
 From stdpp Require Import gmap strings sets.
-From SK Require Import lib.Tok model.C15_Model proof.C15_Proof model.C16_Model proof.C16_Defs proof.C16_Chars proof.C16_Str proof.C16_Sg proof.C16_BipA proof.C16_BipB proof.C16_BipNum proof.C16_BipMarker proof.C16_Reach proof.C16_SgMol proof.C16_SgRules proof.C16_StrItems proof.C16_StrOrder model.C16_Edit proof.C16_BipArcs proof.C16_BipDrop proof.C16_SgDrop proof.C16_SgLegacy.
+From SK Require Import lib.Tok model.C15_Model proof.C15_Proof model.C16_Model proof.C16_Defs proof.C16_Chars proof.C16_Str proof.C16_Sg proof.C16_BipA proof.C16_BipB proof.C16_BipNum proof.C16_BipMarker proof.C16_Reach proof.C16_SgMol proof.C16_SgRules proof.C16_StrItems proof.C16_StrOrder model.C16_Edit proof.C16_BipArcs proof.C16_BipDrop proof.C16_SgDrop proof.C16_SgLegacy model.C16_Undirected proof.C16_Undirected.
 Local Open Scope string_scope.
 
 (** every network reachable through the store operations (C15_inv_reachable) satisfies the decidable premise used below *)
@@ -336,3 +336,18 @@ Theorem C16_species_graph_roundtrip_legacy : ∀ (pick : gset string → string)
     = (λ rx, (r_lhs rx, r_rhs rx)) <$> edges H.
 Proof. exact species_graph_roundtrip_legacy. Qed.
 Print Assumptions C16_species_graph_roundtrip_legacy.
+
+(** ** (round 5) conversion._as_bipartite on an UNDIRECTED bipartite graph (model/C16_Undirected.v): orientation by `role` *)
+(** take the exported DiGraph (roles exported) and present it undirected in ANY way — the incidences in any sequence [l], each
+    with its endpoints in either order ([flipb b]: networkx decides both) —: _as_bipartite rebuilds exactly the exported DiGraph,
+    catalysts (two incidences between one pair of nodes) included, and the import returns the reactions.  Without `role` the
+    product arcs are turned around ([ex_undirected_role_needed]); non-vacuity [ex_undirected_nonvacuous]. *)
+Theorem C16_undirected_roundtrip : ∀ (fl : bflags) (ifl : iflags) (H : net) (bs : list bool) (l : list (nid * nid * barc)),
+  wf16 H → f_eid fl = true → f_stoich fl = true → f_role fl = true → bip_names_ok fl H →
+  length bs = length (map_to_list (b_arcs (hypergraph_to_bipartite fl H))) →
+  l ≡ₚ zip_with (λ (b : bool) (e : nid * nid * barc), if b then (e.1.2, e.1.1, e.2) else e) bs
+               (map_to_list (b_arcs (hypergraph_to_bipartite fl H))) →
+  as_bipartite_undirected (UGraph (b_nodes (hypergraph_to_bipartite fl H)) l) = hypergraph_to_bipartite fl H ∧
+  edges (bipartite_to_hypergraph ifl (as_bipartite_undirected (UGraph (b_nodes (hypergraph_to_bipartite fl H)) l))).1 = edges H.
+Proof. exact undirected_roundtrip. Qed.
+Print Assumptions C16_undirected_roundtrip.
